@@ -302,6 +302,9 @@ CORPUS = [
     ("isnull", ("not", ("col", "p"))),
     ("isnull", ("isnotnull", ("col", "a"))),
     ("bin", "*", ("neg", ("bin", "+", ("col", "a"), ("col", "b"))), ("rbin", "-", 1, ("col", "a"))),
+    # a NOT-prefixed result as LEFT operand of a comparison is value-neutral alone, but its scope swallows what follows
+    ("isnotnull", ("bin", "==", ("isnotnull", ("col", "p")), ("lit", False))),
+    ("isnull", ("bin", "==", ("not", ("col", "q")), ("lit", False))),
     ("bin", "&", ("bin", "|", ("col", "p"), ("bin", "<", ("col", "a"), ("py", 1))), ("not", ("bin", "&", ("col", "p"), ("col", "q")))),
 ]
 
